@@ -19,6 +19,7 @@ import (
 	"pgregory.net/rapid"
 
 	"github.com/bartventer/httpcache/store/driver"
+	"github.com/bartventer/httpcache/store"
 	"github.com/bartventer/httpcache/store/expapi"
 	"github.com/bartventer/httpcache/store/fscache"
 	"github.com/bartventer/httpcache/store/memcache"
@@ -117,7 +118,12 @@ func genC14(t *rapid.T) *world.Scenario {
 			op.Op = "api-delete"
 		case 9:
 			op.Op = "api-list"
-			op.Key = nil
+			if gen.Pct(t, lbl+"-apfx", 50) {
+				k := op.Key
+				op.Key = k[:rapid.IntRange(0, len(k)).Draw(t, lbl+"-apfxlen")]
+			} else {
+				op.Key = nil
+			}
 		}
 		if op.Op == "set" || op.Op == "set-scribble" {
 			op.ValLen = gen.Pick(t, lbl+"-vlen", sizes...)
@@ -156,6 +162,12 @@ func (b *c14Backend) open() error {
 			return err
 		}
 		b.conn = c
+	case "fsopt", "fsencopt":
+		c, err := store.Open(b.dsn())
+		if err != nil {
+			return err
+		}
+		b.conn = c
 	}
 	return nil
 }
@@ -166,6 +178,10 @@ func (b *c14Backend) dsn() string {
 		return "fscache://" + b.dir + "?appname=app"
 	case "fsenc":
 		return "fscache://" + b.dir + "?appname=app&encrypt=on&encrypt_key=" + url.QueryEscape(c14EncKey)
+	case "fsopt":
+		return "fscache://" + b.dir + "?appname=app&update_mtime=on&timeout=90s&connect_timeout=45s"
+	case "fsencopt":
+		return "fscache://" + b.dir + "?appname=app&update_mtime=on&timeout=90s&connect_timeout=45s&encrypt=aesgcm&encrypt_key=" + url.QueryEscape(c14EncKey)
 	}
 	return ""
 }
@@ -377,7 +393,7 @@ func execC14(t *testing.T, sc *world.Scenario) (*oracle.Result, string) {
 			if b.kind == "mem" {
 				continue
 			}
-			code, body := b.api("GET", "", true, "")
+			code, body := b.api("GET", "", true, key)
 			if code != 200 {
 				fail(i, "api-list-failed", "list returned %d %q (live keys: %s)", code, truncS(string(body)), liveSummary(model))
 				continue
@@ -389,7 +405,7 @@ func execC14(t *testing.T, sc *world.Scenario) (*oracle.Result, string) {
 				fail(i, "api-list-bad-json", "%v", err)
 				continue
 			}
-			if d := diffKeySets(out.Keys, model, "", true); d != "" {
+			if d := diffKeySets(out.Keys, model, key, true); d != "" {
 				fail(i, "api-list-wrong", "%s", d)
 			}
 		}
